@@ -37,9 +37,9 @@ def _prop(name, target='std::str', required=False):
                                         target=K._tn(target), cardinality=qltypes.SchemaCardinality.One, commands=[])
 
 
-def _link(name, target, multi=False):
+def _link(name, target, multi=False, overloaded=False):
     return qlast.CreateConcreteLink(name=qlast.ObjectRef(name=name, itemclass=OC.LINK), is_required=False,
-                                    target=K._tn(target), commands=[],
+                                    target=K._tn(target), commands=[], declared_overloaded=overloaded,
                                     cardinality=qltypes.SchemaCardinality.Many if multi else qltypes.SchemaCardinality.One)
 
 
@@ -52,17 +52,30 @@ def _anno_value():
     return qlast.CreateAnnotationValue(name=qlast.ObjectRef(name='note'), value=qlast.Constant.string('v'))
 
 
-def declarations(bases, links, annotated, with_prop):
+def _ancestors(bases, i):
+    out, j = [], i
+    while bases[j] and bases[j] - 1 not in out and bases[j] - 1 != i:
+        j = bases[j] - 1
+        out.append(j)
+    return out
+
+
+def declarations(bases, links, annotated, with_prop, shared=False):
     """bases[i] in 0..3: type i extends nothing (0) or NAMES[bases[i]-1];
     links[i] in 0..3: type i has no link / a link to NAMES[links[i]-1];
-    annotated: index of the type carrying an annotation value (3 = none)."""
+    annotated: index of the type carrying an annotation value (3 = none);
+    shared: every link is the multi link `l` - a type whose ancestor also declares it
+    declares it `overloaded` (what SDL requires)."""
     decls = []
     for i, n in enumerate(NAMES):
         b = [NAMES[bases[i] - 1]] if bases[i] else []
         members = []
         if with_prop:
             members.append(_prop('p%d' % i, 'std::int64' if i else 'std::str', required=(i == 1)))
-        if links[i]:
+        if links[i] and shared:
+            members.append(_link('l', NAMES[links[i] - 1], multi=True,
+                                 overloaded=any(links[a] for a in _ancestors(bases, i))))
+        elif links[i]:
             members.append(_link('l%d' % i, NAMES[links[i] - 1], multi=(i == 2)))
         if annotated == i:
             members.append(_anno_value())
@@ -122,13 +135,43 @@ def order_independent(b0: int, b1: int, b2: int, l0: int, l1: int, l2: int, anno
     if min(vals) < 0 or perm < 0:
         return True
     with_prop, flip, split = concrete_bool(with_prop), concrete_bool(flip), concrete_bool(split)
-    with untraced():
+    with untraced(heavy=True):
         return _order_independent(vals[:3], vals[3:6], vals[6], with_prop, perm, flip, split)
 
 
-def _order_independent(bases, links, annotated, with_prop, perm, flip, split) -> bool:
+def order_independent_shared(b0: int, b1: int, b2: int, l0: int, l1: int, l2: int, perm: int, exclude_known: bool) -> bool:
+    """The same with one shared (overloaded) multi link `l`; no annotation, no properties."""
+    vals = [concrete_index(x, 4) for x in (b0, b1, b2, l0, l1, l2)]
+    perm = concrete_index(perm, 6)
+    if min(vals) < 0 or perm < 0:
+        return True
+    exclude_known = concrete_bool(exclude_known)
+    with untraced(heavy=True):
+        if exclude_known and f18_shape(vals[:3], vals[3:6]):
+            return True
+        return _order_independent(vals[:3], vals[3:6], 3, False, perm, False, False, shared=True)
+
+
+def f18_shape(bases, links) -> bool:
+    """Witness class of known finding F18: some type declares the shared link, an ancestor of it
+    declares it too, and that ancestor has a further descendant chain of length >= 2 (grandparent
+    -> parent -> child all on one inheritance path with the parent overloading the link)."""
+    for child in range(3):
+        anc = _ancestors(bases, child)
+        if len(anc) >= 2 and links[anc[0]] and any(links[a] for a in anc[1:]):
+            return True
+    return False
+
+
+def f18_witness(args) -> bool:
+    vals = [int(x) for x in args[:6]]
+    return f18_shape(vals[:3], vals[3:6])
+
+
+def _order_independent(bases, links, annotated, with_prop, perm, flip, split, shared=False) -> bool:
+    K.reset_ids(0)
     anno = annotated < 3
-    decls = declarations(bases, links, annotated, with_prop)
+    decls = declarations(bases, links, annotated, with_prop, shared)
     n = 4 if anno else 3
     if not anno and perm >= 6:
         return True
